@@ -25,7 +25,8 @@ def tasks(tier):
     ts += [W('admix_props.%dD' % K, 'c05_admix_props', K=K) for K in (2, 3, 4)]
     ts += [W('analytic_1d.n3_G4', 'c05_analytic_1d', n=3, G=4), W('cached_dbeta.n2_G3', 'c05_cached_dbeta', n=2, G=3)]
     ts += [W('linalg.%s_G%d' % ('_'.join(map(str, ns)), G), 'c05_linalg', ns=list(ns), G=G)
-           for ns, G in (((1, 2), 3), ((1, 2, 1), 2), ((1, 1, 1, 2), 2), ((1, 1, 2, 1, 1), 2))]
+           for ns, G in (((1, 2), 3), ((1, 2, 1), 2), ((2, 1, 1), 2), ((1, 1, 1, 2), 2), ((1, 1, 2, 1), 2), ((2, 1, 1, 1), 2),
+                         ((1, 1, 2, 1, 1), 2), ((1, 1, 1, 1, 2), 2), ((2, 1, 1, 1, 1), 2))]       # every pair of adjacent axes differs in some configuration
     if tier == 'thorough':
         ts += [W('analytic_1d.n5_G5', 'c05_analytic_1d', n=5, G=5), W('linalg.2_3_G3', 'c05_linalg', ns=[2, 3], G=3), W('linalg.2_1_2_G2', 'c05_linalg', ns=[2, 1, 2], G=2),
                W('direct_1d.n6_G6', 'c05_direct_1d', n=6, G=6), W('direct_1d.n4_G5_het', 'c05_direct_1d', n=4, G=5, het='xx'),
